@@ -285,6 +285,23 @@ func check(c *pruneCase, o *vk.Obs) []string {
 	o.LabelIf(drop == nil && !pruneFromMode, "no-expressions")
 	o.NonTrivial = anyCut && anyKept
 
+	// A profile whose expressions were cleared after it had been serialized once (the encoder keeps scratch
+	// indices on the profile): its copy has no expressions and pruning leaves it untouched.
+	if drop != nil && c.Mode <= 1 {
+		q := orig.Copy()
+		_ = q.Copy() // first serialization, with the expressions
+		q.DropFrames, q.KeepFrames = "", ""
+		r := q.Copy()
+		if r.DropFrames != "" || r.KeepFrames != "" {
+			e.Addf("drop_frames/keep_frames were cleared after a first serialization, yet the copy carries drop_frames=%q keep_frames=%q", r.DropFrames, r.KeepFrames)
+		}
+		beforeR := model.Snap(r, model.SnapOpts{})
+		if err := r.RemoveUninteresting(); err != nil {
+			e.Addf("RemoveUninteresting on a profile without expressions: %v", err)
+		} else if model.Snap(r, model.SnapOpts{}) != beforeR {
+			e.Addf("a profile whose drop_frames were cleared (after one serialization) was pruned all the same")
+		}
+	}
 	var got *profile.Profile
 	switch c.Mode {
 	case 0:
